@@ -57,8 +57,25 @@ func genC20(seed uint64, tier string) *plan.Plan {
 		nkeys = r.Range(2, 12)
 		delShare = Pick(r, 400, 600)
 	}
+	big := !skew && !wipe && r.Bool(250)
+	if big {
+		// entries of about a third and of about three quarters of a table alternate: a table rolls over
+		// while it is mostly empty, and what it holds is superseded soon after
+		nkeys = r.Range(2, 8)
+		if nops > 800 {
+			nops = 800
+		}
+	}
 	for i := 0; i < nops; i++ {
 		k := fmt.Sprintf("k%03d", r.Intn(nkeys))
+		if big {
+			frac := Pick(r, 28, 33, 70, 78)
+			if i%2 == 0 {
+				frac = Pick(r, 28, 33)
+			}
+			sc.Ops = append(sc.Ops, plan.Op{K: "put", Key: k, Val: fixedVal(ts*frac/100 - 40)})
+			continue
+		}
 		switch x := r.Intn(1000); {
 		case x < delShare:
 			sc.Ops = append(sc.Ops, plan.Op{K: "del", Key: k})
@@ -88,7 +105,7 @@ func genC20(seed uint64, tier string) *plan.Plan {
 		sc.Ops = append(sc.Ops, plan.Op{K: "get", Key: fmt.Sprintf("k%03d", i)})
 	}
 	p.Phases = []plan.Phase{{Name: "churn", Clients: []plan.Script{sc}}}
-	p.Variant = fmt.Sprintf("ts%d/k%d/R%d/N%d/ttl%d/del%d/skew=%v/wipe=%v", ts, nkeys, p.Cluster.ReplicaCount, n, ttlShare, delShare, skew, wipe)
+	p.Variant = fmt.Sprintf("ts%d/k%d/R%d/N%d/ttl%d/del%d/skew=%v/wipe=%v/big=%v", ts, nkeys, p.Cluster.ReplicaCount, n, ttlShare, delShare, skew, wipe, big)
 	p.Params["max_entry"] = int64(maxVal + 29 + 4)
 	return p
 }
